@@ -878,8 +878,8 @@ pub struct ClientReplicationStats {
 
 #[cfg(replicon_verif)]
 impl BufferedMutations {
-    /// Returns `(update tick, message tick, messages count, remaining body)` for each buffered mutate message.
-    pub fn verif_snapshot(&self) -> Vec<(RepliconTick, RepliconTick, usize, Bytes)> {
+    /// Returns `(update tick, message tick, messages count, mutate index, remaining body)` for each buffered mutate message.
+    pub fn verif_snapshot(&self) -> Vec<(RepliconTick, RepliconTick, usize, u16, Bytes)> {
         self.0
             .iter()
             .map(|mutate| {
@@ -887,6 +887,7 @@ impl BufferedMutations {
                     mutate.update_tick,
                     mutate.message_tick,
                     mutate.messages_count,
+                    mutate.mutate_index.verif_get(),
                     mutate.message.clone(),
                 )
             })
